@@ -20,7 +20,7 @@ TYPE_IDS = {n: i for i, n in enumerate(CONCRETE)}
 TYPE_IDS.update({"SubmodelElement": 100, "DataElement": 101, "EventElement": 102})
 GEN_ELEM_TYPES = ["Property", "Range", "MultiLanguageProperty", "File", "SubmodelElementCollection", "RelationshipElement",
                   "AnnotatedRelationshipElement", "BasicEventElement"]
-VTS = ["Int", "String"]
+VTS = ["Int", "String", "Integer", "Long", "Double", "Float", "Boolean", "AnyURI", "NormalizedString", "UnsignedByte"]   # incl. every Python subclass relation between XSD classes (int, float, str, bool < int)
 SEMS = [None, "A", "B"]
 
 _refs = {}
